@@ -31,6 +31,8 @@ def programs(tier="quick", step=None):
         ("NAMESLIB", lambda: F.names_lib()[::3]),
         ("LIB", lambda: F.lib(tier)),
         ("CALLARG", lambda: F.callarg(tier)),
+        ("SYNTAX", lambda: F.syntax(tier)),
+        ("GLOBALS", lambda: F.globals_family(tier)),
         ("DEADLIB", lambda: F.deadlib(tier)),
         ("NAMECLASH", lambda: F.names_clash()[::2]),
     ]
